@@ -266,7 +266,8 @@ func c36One(c *vk.Ctx, l *vk.Local, fs *c36Findings, src string) string {
 			return "panic"
 		}
 		if again != out {
-			if ha := c36HTML(again); ha != htmlOut {
+			outScan := c36ScanOf(out, false)
+			if ha := c36HTML(again); ha != htmlOut && !outScan.nested && !outScan.consec {
 				// The formatter's own output is a document it does not preserve:
 				// report that (the more basic failure) for the output as document.
 				fs.add("html-changed:"+c36Attr(out, again), out, fmt.Sprintf("document %q (the width-%d output for %q) is formatted as %q, which renders as %q instead of %q", out, w, src, again, ha, htmlOut))
